@@ -62,13 +62,25 @@ Theorem C05_node_sets_disjoint : forall w r1 r2 n1 n2 lid,
 Proof. exact node_sets_disjoint. Qed.
 Print Assumptions C05_node_sets_disjoint.
 
-(* PARTIAL: C05_reassociation_exact speaks about the node OBJECT registered under the id.  The property's
-   "sessions established under that node id" coincides with it unless a takeover (Modification carrying a
-   Node ID) re-keys a node onto an id that already has its own association - then the full statement is FALSE
-   (finding sig=takeover-collision in known_findings.txt): *)
-Example C05_takeover_collision_refuted :
+(* C05_reassociation_exact speaks about the node OBJECT registered under the id.  The property's "sessions established
+   under that node id" coincides with it because a takeover (Modification carrying a Node ID) never displaces an
+   association: when the new id has an association of its own, exactly the addressed session moves to it (fix "takeover by
+   a node with its own association moves the session"; before it the node object was re-keyed over that association) *)
+Theorem C05_takeover_does_not_displace : forall w seid s newid ref',
+  WInv w -> live w seid s -> alookup newid (w_rnodes w) = Some ref' -> ref' <> s_node s ->
+  WInv (fst (takeover w s newid)) /\ live (fst (takeover w s newid)) seid (snd (takeover w s newid)) /\
+  s_node (snd (takeover w s newid)) = ref' /\ w_rnodes (fst (takeover w s newid)) = w_rnodes w /\
+  (forall l x, l <> seid -> (live (fst (takeover w s newid)) l x <-> live w l x)) /\
+  w_dp (fst (takeover w s newid)) = w_dp w.
+Proof. exact takeover_collision_spec. Qed.
+Print Assumptions C05_takeover_does_not_displace.
+
+(* the history of the former finding takeover-collision: nodes 0 and 1 each establish a session; node 1 takes over
+   session 1; node 1 re-associates => BOTH its sessions go, node 0 keeps its association *)
+Example C05_takeover_collision_exact :
   match run (init 0 1) takeover_history with
-  | Ok (w, _) => map (option_map s_rid) (w_slots w) = [None; Some 20] /\ alookup 0 (w_rnodes w) = None
+  | Ok (w, _) => map (option_map s_rid) (w_slots w) = [None; None] /\ alookup 0 (w_rnodes w) <> None /\
+                 map n_sess (w_heap w) = [[]; []; []]
   | Fault _ => False
   end.
-Proof. exact takeover_collision_refuted. Qed.
+Proof. exact takeover_collision_exact. Qed.
